@@ -29,6 +29,15 @@ ChkD(e, prop, clause, cond, detail) ==
 \* a premise the DRIVER must establish; its failure is a machinery failure, never a verdict
 Premise(e, clause, cond) == IF cond THEN TRUE ELSE PrintT(<< "REJECT", e.id, "MACHINERY", clause >>)
 
+\* what the wire format cannot represent (a short string of more than 255 octets ...) is refused, never emitted: the
+\* driver marks such inputs (unrep), the reference must agree that it has no encoding for them (a premise), and the
+\* code must not have produced bytes
+Unrep(e, specok, okc) ==
+    IF "unrep" \in DOMAIN e
+    THEN /\ Premise(e, "reference_has_no_encoding_for_it", ~specok)
+         /\ Chk(e, "C04", "unrepresentable_is_not_emitted", ~okc)
+    ELSE TRUE
+
 \* equality of a decoded frame (cf, from the code) with the reference decoding (sf)
 SameDecoded(sf, cf) ==
     /\ cf.cls = sf.cls
@@ -110,6 +119,7 @@ EncodeValue(e) ==
     \* C04: byte-identical to the reference encoder
     /\ Chk(e, "C04", "accepted", spec.ok => okc)
     /\ Chk(e, "C04", "bytes_equal_reference", (spec.ok /\ okc) => e.out.b = spec.b)
+    /\ Unrep(e, spec.ok, okc)
     \* C10: raise, or emit bytes that decode to the input (documented exceptions: Exempt10)
     /\ Chk(e, "C10", "wire_decodes_to_input",
            (okc /\ ~Exempt10(v)) => (wire.ok /\ wire.n = Len(e.out.b) /\ SameValue(wire.v, want)))
@@ -184,6 +194,7 @@ RoundTrip(e) ==
     \* C04: bytes equal the reference encoder
     /\ Chk(e, "C04", "accepted", spec.ok => okc)
     /\ Chk(e, "C04", "bytes_equal_reference", (spec.ok /\ okc) => e.out.b = spec.b)
+    /\ Unrep(e, spec.ok, okc)
     \* C10: whatever was passed, bytes that are emitted decode back to it
     /\ Chk(e, "C10", "emitted_frame_decodes", okc => (un.r = "ok" /\ un.n = Len(e.out.b)))
     /\ Chk(e, "C10", "method_arguments_survive",
@@ -248,6 +259,7 @@ MarshalPart(e) ==
     IN
     /\ Chk(e, "C04", "accepted", spec.ok => okc)
     /\ Chk(e, "C04", "bytes_equal_reference", (spec.ok /\ okc) => e.out.b = spec.b)
+    /\ Unrep(e, spec.ok, okc)
     /\ UNCHANGED st
 
 EncodeArg(e) ==
@@ -256,6 +268,7 @@ EncodeArg(e) ==
     IN
     /\ Chk(e, "C04", "accepted", spec.ok => okc)
     /\ Chk(e, "C04", "bytes_equal_reference", (spec.ok /\ okc) => e.out.b = spec.b)
+    /\ Unrep(e, spec.ok, okc)
     /\ Chk(e, "C15", "bytes_independent_of_time_zone", spec.ok => (okc /\ e.out.b = spec.b))
     /\ Chk(e, "C15", "decoded_instant_is_utc", (spec.ok /\ okc) => (e.dec.r = "ok" /\ SameValue(e.dec.v, Norm(e.in))))
     /\ Chk(e, "C10", "wire_decodes_to_input",
@@ -292,7 +305,8 @@ CatalogEntry(e) ==
     /\ Chk(e, "C14", "constructor_defaults",
            (known /\ Len(e.defaults) = n) => \A i \in 1..n : DefaultOk(e.defaults[i], m.args[i]))
     /\ Chk(e, "C14", "documented_defaults", (known /\ Len(e.docs) = n) => \A i \in 1..n : e.docs[i] = m.args[i].doc)
-    \* arguments given by POSITION are taken in wire order (first pass only: values passed by position, read back by name)
+    \* arguments given by POSITION are taken in wire order, and an argument that is given -- also a falsy one -- is stored as
+    \* given (first pass only: values passed by position, then all-falsy values by name, read back by name)
     /\ Chk(e, "C14", "constructor_takes_arguments_in_wire_order",
            ("pos_in" \in DOMAIN e /\ Len(e.pos_in) > 0) => e.pos_back = e.pos_in)
     /\ UNCHANGED st
@@ -373,6 +387,15 @@ UnmarshalEv(e) ==
     /\ (IF "full" \in DOMAIN e
         THEN /\ Premise(e, "is_strict_prefix_of_one_valid_frame",
                         LET u == Unmarshal(e.full) IN u.k = "frame" /\ u.n = Len(e.full) /\ Len(b) < Len(e.full) /\ Take(e.full, Len(b)) = b)
+             /\ Chk(e, "C07", "prefix_raises_only_UnmarshalingException", o.r = "exc" /\ o.lib /\ o.type = "UnmarshalingException")
+        ELSE TRUE)
+    \* (the driver says: b is a strict prefix of SOME valid body frame -- re-decided here: any payload is a valid body, so a
+    \* type-3 header announcing size > 0 followed by fewer than size + 1 bytes is such a prefix)
+    /\ (IF "body_prefix" \in DOMAIN e
+        THEN /\ Premise(e, "is_strict_prefix_of_a_valid_body_frame",
+                        \* (HdrSize is -1 for sizes of 2^30 and more, which no buffer here approaches)
+                        Len(b) >= 7 /\ HdrType(b) = 3 /\ (HdrSize(b) = -1 \/ (HdrSize(b) > 0 /\ Len(b) < HdrSize(b) + 8)))
+             /\ Chk(e, "C07", "prefix_never_yields_a_frame", ~okc)
              /\ Chk(e, "C07", "prefix_raises_only_UnmarshalingException", o.r = "exc" /\ o.lib /\ o.type = "UnmarshalingException")
         ELSE TRUE)
     /\ Chk(e, "C06", "envelope_truth", okc => EnvelopeTruth(b, o))
